@@ -249,7 +249,11 @@ def add_dyndep(rnd, g, produced=None):
     for e in bound:
         pos = g.edges.index(e)
         earlier = list(g.sources) + [o for pe in g.edges[:pos] for o in pe.outs]
-        ii = [x for x in rnd.sample(earlier, min(len(earlier), rnd.randrange(0, 3))) if x not in e.manifest_ins() and x != dd]
+        ii = [x for x in rnd.sample(earlier, min(len(earlier), rnd.randrange(0, 3))) if x not in e.exp + e.imp and x != dd]
+        # the common idiom "build obj: cc src || gen.h dd": the dyndep file names an input the manifest lists order-only
+        if e.oo and rnd.random() < 0.25:
+            x = rnd.choice(e.oo)
+            if x != dd and x not in ii: ii.append(x)
         io = ['ddo%d_%d' % (k, e.idx)] if rnd.random() < 0.4 else []
         info[e.out0] = (io, ii, rnd.random() < 0.3)
         e.dyndep = dd; e.dd_at_rule = rnd.random() < 0.3
